@@ -96,10 +96,14 @@ def race_pass(scenarios, tier, prop="race"):
             return sc, d, r.returncode, js, r.stderr[-1500:]
         import concurrent.futures, json
         jobs = []
+        import time
+        # one deadline for the whole race pass as well (ThreadSanitizer executions are ~4x slower; on a busy machine the thorough pass
+        # took 39 minutes before the main exploration even began): shards that are cut report exhaustive:false
+        at = int(time.time() + (300 if tier == "quick" else 900))
         for sc in scenarios:
             n = sc.get("_shards", vlib.NCPU if sc.get("bound", 0) >= 1 else 1)
             for i in range(n):
-                j = dict(sc); j["shard"] = i; j["nshards"] = n
+                j = dict(sc); j["shard"] = i; j["nshards"] = n; j["deadline-at"] = at
                 jobs.append(j)
         with concurrent.futures.ThreadPoolExecutor(max_workers=vlib.NCPU) as ex:
             results = list(ex.map(one, enumerate(jobs)))
